@@ -288,3 +288,23 @@ func WithinStr(s string, b []byte) bool {
 	pb := uintptr(unsafe.Pointer(unsafe.SliceData(b)))
 	return ps >= pb && ps+uintptr(len(s)) <= pb+uintptr(len(b))
 }
+
+// BytesSparse returns n bytes of which the first k and the last k are arbitrary and the middle is
+// the fixed pattern byte(i*7+3) (used for payloads too large to be fully symbolic).
+func BytesSparse(n, k int) []byte {
+	if n <= 2*k {
+		return Bytes(n)
+	}
+	e := next("bytes")
+	b, err := hex.DecodeString(e.V)
+	if err != nil || len(b) != 2*k {
+		panic(mismatch{fmt.Sprintf("sparse: script has %d bytes, code asks %d", len(b), 2*k)})
+	}
+	out := make([]byte, n)
+	for i := range out {
+		out[i] = byte(i*7 + 3)
+	}
+	copy(out, b[:k])
+	copy(out[n-k:], b[k:])
+	return out
+}
